@@ -224,7 +224,7 @@ type PktCase struct {
 	GRESeq  *uint32  `json:"gre_seq,omitempty"`
 	GRECsum bool     `json:"gre_csum"`
 	Payload []byte   `json:"payload"`
-	Target  *uint16  `json:"target,omitempty"` // solve payload[0:2] so the L4 checksum becomes this
+	Target  *uint16  `json:"target,omitempty"`   // solve payload[0:2] so the L4 checksum becomes this
 	FlipBit *int     `json:"flip_bit,omitempty"` // index into the list of safe bit positions
 }
 
@@ -296,9 +296,9 @@ func (c *PktCase) build(payload []byte) ([]byte, error) {
 // layout derived from raw bytes by the harness (not from gopacket's decoders)
 type layout struct {
 	ipOff, ipHdrLen, l4Off, end int
-	v6                     bool
-	proto                  byte
-	src, dst               []byte
+	v6                          bool
+	proto                       byte
+	src, dst                    []byte
 }
 
 func parseLayout(b []byte) layout {
